@@ -26,7 +26,7 @@ ASSUMPTIONS = [
 ]
 MIN_EVENTS = {"parse_version_specifier": 50, "from_specifierset": 50, "RangeSpecifier.__and__": 50,
               "RangeSpecifier.__or__": 50, "UnionSpecifier.__or__": 20, "UnionSpecifier.__and__": 20,
-              "UnionSpecifier.__invert__": 5, "pairwise-eq": 200}
+              "UnionSpecifier.__invert__": 5, "pairwise-eq": 200, "denotation": 200, "denotation-eq": 200}
 MIN_SHAPES = {"same-set-different-object": 1, "result:union": 20, "result:empty-from-nonempty": 5,
               "result:any-from-nonany": 2}
 
@@ -50,13 +50,40 @@ def _variants(tree, rnd):
     return out
 
 
+def _without(tree, avoid):
+    """The same set computed without one of the binary operators: every `avoid` node is rewritten by De Morgan
+    (a & b = ~(~a | ~b),  a | b = ~(~a & ~b)), so a defect confined to that operator cannot cancel out."""
+    k = tree[0]
+    if k == "not":
+        return ["not", _without(tree[1], avoid)]
+    if k in ("and", "or"):
+        a, b = _without(tree[1], avoid), _without(tree[2], avoid)
+        if k == avoid:
+            return ["not", ["or" if k == "and" else "and", ["not", a], ["not", b]]]
+        return [k, a, b]
+    return tree
+
+
 def _case(ctx):
     import dep_logic.specifiers as S
 
     def per_case(tree, pool):
         allvals = []
-        for t in _variants(tree, ctx.rnd):
-            root, values = eval_tree(ctx, t, prop=PROP)
+        leafvals, roots = {}, []
+
+        def keep_leaf(t, v, kids):
+            if t[0] in ("leaf", "fss", "any", "rany", "empty"):
+                leafvals[id(t)] = v
+
+        variants = _variants(tree, ctx.rnd)
+        if W.tree_size(tree) > 60:   # large trees: the tree, its operand-swapped twin and the De Morgan path only
+            variants = variants[:2] + variants[3:4]
+        if W.tree_size(tree) > 60 or ctx.cases % 3 == 0 or getattr(ctx, "force_variants", False):
+            variants += [_without(tree, "and"), _without(tree, "or")]
+            ctx.shape("variant:operator-free path")
+        for t in variants:
+            root, values = eval_tree(ctx, t, keep_leaf, prop=PROP)
+            roots.append((t, root))
             allvals.extend(values[-3:] if t is not tree else values)
             if root is None:
                 continue
@@ -78,6 +105,7 @@ def _case(ctx):
         uniq = uniq[:28]
         from ..monitor import oracle
         with oracle():
+            specmon.denotation_check(ctx, roots, leafvals, PROP)
             specmon.pairwise_eq_check(ctx, uniq, PROP)
             for i, x in enumerate(uniq):
                 for y in uniq[i + 1:]:
@@ -120,7 +148,7 @@ def run(ctx):
         from ..repotests import run_repo_tests
 
         run_repo_tests(ctx, ("specifier", "marker", "tags"))
-    run_trees(ctx, _case(ctx), scale=0.2)
+    run_trees(ctx, _case(ctx), scale=0.2, large=(3, 24, 50))
     small_scope_triples(ctx, _small(ctx))
 
 
@@ -133,4 +161,5 @@ def replay(ctx, case):
     if case.get("kind") == "small-triple":
         small_scope_triples(ctx, _small(ctx))
         return
+    ctx.force_variants = True
     _case(ctx)(case["tree"], None)
